@@ -44,7 +44,7 @@ pub fn scenarios(quick: bool) -> Vec<Scenario> {
     let kinds: Vec<(&str, Kind)> = vec![("fifo", Kind::Fifo), ("sock", Kind::Socket), ("chr1_3", Kind::Chr(1, 3)), ("chr5_1", Kind::Chr(5, 1)), ("chr240_7", Kind::Chr(240, 7)), ("chr1_300", Kind::Chr(1, 300))];
     for d in drivers() {
         for (kn, k) in &kinds {
-            for mode in [0o600u32, 0o644, 0o666, 0o777] {
+            for mode in [0o600u32, 0o644, 0o666, 0o777, 0o1777, 0o2660, 0o4711, 0o7777, 0o000] {
                 for umask in [0u32, 0o022, 0o077] {
                     for pos in ["sole", "tree"] {
                         for dest in ["fresh", "file", "fifo"] {
